@@ -2,7 +2,7 @@ SPECIFICATION Spec
 CONSTANTS
   Elems2 = {"TRI3", "QUAD4", "TRI6"}
   Elems3 = {"TETRA4", "HEXA8", "PRISM6"}
-  LawsAll = {"SVK", "NH", "MR", "CG", "HO", "AD"}
+  LawsAll = {"SVK", "SVQ", "NH", "MR", "CG", "HO", "AD"}
   Emit = TRUE
   Thorough = FALSE
 INVARIANT TypeOK
